@@ -6,6 +6,7 @@ import (
 	"math"
 	"os"
 	"sync"
+	"syscall"
 	"time"
 
 	"go.uber.org/zap"
@@ -95,8 +96,15 @@ func (fs *fsMutable) lookup(p fuseops.InodeID, c string) (le lookupEntry, found 
 	return lookup(p, c, fs.lookupTree)
 }
 
+// What kind of entry the caller of deleteNSEntry expects to remove.
+const (
+	nsAny  = iota // rename: the replaced target
+	nsFile        // unlink
+	nsDir         // rmdir
+)
+
 // Delete the entry from namespace only. Caller must lock structures.
-func (fs *fsMutable) deleteNSEntry(p fuseops.InodeID, c string) error {
+func (fs *fsMutable) deleteNSEntry(p fuseops.InodeID, c string, want int) error {
 	pn, found := fs.iNodeStore.Get(formKey(p))
 	if !found {
 		return jfuse.ENOENT
@@ -118,6 +126,9 @@ func (fs *fsMutable) deleteNSEntry(p fuseops.InodeID, c string) error {
 	cNode := cn.(*nodeEntry)
 
 	if cNode.attr.Mode.IsDir() {
+		if want == nsFile {
+			return syscall.EISDIR
+		}
 		children := fs.readDirMap[cLE.iNode]
 		if len(children) > 0 {
 			return jfuse.ENOTEMPTY
@@ -125,6 +136,8 @@ func (fs *fsMutable) deleteNSEntry(p fuseops.InodeID, c string) error {
 		// Delete the child dir
 		delete(fs.readDirMap, cLE.iNode)
 		pNode.attr.Nlink--
+	} else if want == nsDir {
+		return jfuse.ENOTDIR
 	}
 
 	fs.lookupTree, _, _ = fs.lookupTree.Delete(lk)
@@ -366,7 +379,7 @@ func (fs *fsMutable) Rename(ctx context.Context, op *fuseops.RenameOp) (err erro
 			return jfuse.ENOSYS
 		}
 		// Delete new child, ignore if not present
-		_ = fs.deleteNSEntry(op.NewParent, op.NewName)
+		_ = fs.deleteNSEntry(op.NewParent, op.NewName, nsAny)
 	}
 
 	// Insert iNode into new readDir and lookup and remove from old.
@@ -399,7 +412,7 @@ func (fs *fsMutable) RmDir(
 	fs.lock.Lock()
 	defer fs.lock.Unlock()
 
-	return fs.deleteNSEntry(op.Parent, op.Name)
+	return fs.deleteNSEntry(op.Parent, op.Name, nsDir)
 }
 
 func (fs *fsMutable) Unlink(
@@ -412,7 +425,7 @@ func (fs *fsMutable) Unlink(
 	defer fs.lock.Unlock()
 
 	// TODO: remove from lookup and readdir
-	return fs.deleteNSEntry(op.Parent, op.Name)
+	return fs.deleteNSEntry(op.Parent, op.Name, nsFile)
 }
 
 func (fs *fsMutable) OpenDir(
